@@ -159,23 +159,24 @@ func (server *httpServer) handleHttpRequest(conn net.Conn) string {
 	})
 
 	section := 0
+	var getRequest *string
+Loop:
 	for scanner.Scan() {
 		text := scanner.Text()
 		switch section {
 		case 0:
 			getMatch := getRegex.FindStringSubmatch(text)
 			if len(getMatch) > 0 {
-				response := server.getHandler(parseGetParams(getMatch[1]))
-				if len(response) > 0 {
-					return good(response)
-				}
-				return answer(httpUnavailable+jsonContentType, `{"error":"timeout"}`)
+				getRequest = &getMatch[1]
 			} else if !strings.HasPrefix(text, "POST / HTTP") {
 				return bad("invalid request method")
 			}
 			section++
 		case 1:
 			if text == crlf {
+				if getRequest != nil {
+					break Loop
+				}
 				if contentLength == 0 {
 					return bad("content-length header missing")
 				}
@@ -202,6 +203,14 @@ func (server *httpServer) handleHttpRequest(conn net.Conn) string {
 
 	if len(server.apiKey) != 0 && subtle.ConstantTimeCompare([]byte(apiKey), server.apiKey) != 1 {
 		return unauthorized("invalid api key")
+	}
+
+	if getRequest != nil {
+		response := server.getHandler(parseGetParams(*getRequest))
+		if len(response) > 0 {
+			return good(response)
+		}
+		return answer(httpUnavailable+jsonContentType, `{"error":"timeout"}`)
 	}
 
 	if len(body) < contentLength {
